@@ -218,19 +218,30 @@ CURSOR_NEUTRAL = {"open", "open_before", "close", "close_root", "mark", "error",
 
 
 class Interp:
-    def __init__(self, alphabet, fns):
-        """fns: name -> body (list of stmts); names are 'rule_x' and 'rule_x::rec'."""
+    def __init__(self, alphabet, fns, entries=()):
+        """fns: name -> body (list of stmts); names are 'rule_x' and 'rule_x::rec'.
+        entries: functions called from outside (parse, parse_<part>, external functions)."""
         self.alphabet = alphabet
         self.fns = fns
+        self.ALL = set(alphabet)
+        self.C = {f: (set(alphabet) if f in entries else set()) for f in fns}   # possible current tokens at entry
+        self.Ccalls = {}
+        self.loop_entry = {}    # id(loop) -> (set of tokens entering without progress, entered with unknown progress?)
         self.P = {f: set() for f in fns}
         self.N = {f: set() for f in fns}
         self.known_external = {}
         self.edges = set()
         self.cur_fn = None
         self.loops = {}     # id(loop node) -> {tok: set(exit states)}
-        self.record = True
+        self.record = False
+        self.loop_pass = False
 
     def callee_outcome(self, callee, state, t):
+        if self.record and callee in self.fns:
+            if state == "N":
+                self.Ccalls.setdefault(callee, set()).add(t)
+            else:
+                self.Ccalls[callee] = set(self.ALL)
         if state == "P":
             return "P"
         if state == "N":
@@ -318,6 +329,12 @@ class Interp:
                     out[fl] |= r.get(fl, set())
             return out
         if k == "loop":
+            if self.record:
+                e = self.loop_entry.setdefault(id(s), [set(), False])
+                if state == "N":
+                    e[0].add(t)
+                elif state == "U":
+                    e[1] = True
             exits, rets = set(), set()
             seen = set()
             work = [state]
@@ -331,7 +348,7 @@ class Interp:
                 rets |= r["return"]
                 for s2 in r["next"] | r["continue"]:
                     work.append("P" if s2 == "P" else "U")
-            if state == "N" and not self.record:
+            if state == "N" and self.loop_pass:
                 self.loops.setdefault(id(s), {})[t] = set(exits)
             return {"next": exits, "return": rets}
         # other
@@ -344,28 +361,37 @@ class Interp:
             changed = False
             rounds += 1
             self.edges = set()
-            self.loops = {}
+            self.Ccalls = {}
+            self.loop_entry = {}
             for f, body in self.fns.items():
                 self.cur_fn = f
                 P, N = set(), set()
                 for t in self.alphabet:
+                    self.record = t in self.C[f]
                     r = self.seq(body, "N", t)
                     outs = r["next"] | r["return"]
                     if outs == {"P"}:
                         P.add(t)
                     elif outs == {"N"}:
                         N.add(t)
+                self.record = False
                 if P != self.P[f] or N != self.N[f]:
                     # monotone: only grow
                     if not (self.P[f] <= P and self.N[f] <= N):
                         P |= self.P[f]
                         N |= self.N[f]
-                    self.P[f], self.N[f] = P, N
+                    if P != self.P[f] or N != self.N[f]:
+                        self.P[f], self.N[f] = P, N
+                        changed = True
+            for f, c in self.Ccalls.items():
+                if not c <= self.C[f]:
+                    self.C[f] |= c
                     changed = True
-            if rounds > 50:
+            if rounds > 100:
                 break
         # per-loop exit behaviour, from a fresh "no progress yet" state for every token
         self.record = False
+        self.loop_pass = True
         self.loops = {}
 
         def all_loops(stmts, acc):
@@ -390,7 +416,7 @@ class Interp:
                     self.stmt(lp, "N", t)
                     # nested loops get overwritten with the same values; keep this loop's entry
                     _ = saved
-        self.record = True
+        self.loop_pass = False
         return rounds
 
     def ranks(self):
@@ -512,6 +538,10 @@ class Emitter:
         for v in closed:
             if uses_after(ix, self.f, s.i_kw, v):
                 inv.append("%s.mk(%s.0 as int) && top_of(%s.rstack()) < %s.0 && %s <= %s.0" % (r, v, r, v, B, v))
+        ent = self.interp.loop_entry.get(id(s))
+        if ent is not None and not ent[1] and len(ent[0]) < len(self.alphabet):
+            # without progress since the function was entered, the loop is reached only on these tokens
+            inv.append("(%s.pos == %s.pos ==> %s)" % (r, o, tokset("%s.current" % r, ent[0], self.alphabet)))
         exits = self.interp.loops.get(id(s), {})
         P = {t for t in self.alphabet if exits.get(t) == {"P"}}
         N = {t for t in self.alphabet if exits.get(t) == {"N"}}
@@ -543,6 +573,9 @@ class Emitter:
         P = self.interp.P.get(self.key, set())
         N = self.interp.N.get(self.key, set())
         req = ["%s.wf()" % o]
+        C = self.interp.C.get(self.key, set())
+        if C and len(C) < len(self.alphabet):
+            req.append(tokset("%s.current" % o, C, self.alphabet))
         if f.parent is not None:
             req.append("%s.mk(lhs.0 as int)" % o)
             req.append("top_of(%s.rstack()) < lhs.0" % o)
@@ -581,7 +614,11 @@ def annotate(ix, ed, report, skeleton_only=False):
         body = BodyParser(ix, f).parse_fn()
         fns[key] = body
         fobj[key] = (f, body)
-    it = Interp(alphabet, fns)
+    entries = set(e[1] for e in report.get("extraction", {}).get("E5_entries", []))
+    if ext_keys:
+        # external (unverified) functions may call anything on any token
+        entries = set(fns)
+    it = Interp(alphabet, fns, entries)
     rounds = it.run()
     rank = it.ranks()
     st = ix.st
@@ -626,7 +663,7 @@ def annotate(ix, ed, report, skeleton_only=False):
                         find_other(s.els)
         find_other(body)
         other.extend(unk)
-        rep["functions"][key] = {"P": sorted(it.P[key]), "N": sorted(it.N[key]), "rank": rank.get(key, 0), "loops": em.nloop}
+        rep["functions"][key] = {"P": sorted(it.P[key]), "N": sorted(it.N[key]), "C": sorted(it.C[key]), "rank": rank.get(key, 0), "loops": em.nloop}
     rep["unrecognised_statements"] = other
     report["annotator"] = rep
     # assumed contracts of E8 functions
